@@ -36,9 +36,9 @@ def known_for(sigd):
             return fid, f
     return None
 
-INV = ("CodecByMagic", "StoredInSchema", "KeysAreWritten")
+INV = ("CodecByMagic", "StoredInSchema", "KeysAreWritten", "NothingShared")
 PROPS = ("RoundTrip", "V1DomainClosed", "PutAccepted")
-ACTIONS = ("MakeLegacy", "LegacyPut", "OpenLib", "Put", "Get")
+ACTIONS = ("MakeLegacy", "LegacyPut", "OpenLib", "Put", "Get", "Scribble")
 # deviation -> the clause(s) it is documented to break
 DEVIATIONS = {
     "DevV1Ens": ("RoundTrip",),            # pinned tree: v1 ensemble reader without reshape of atomic_charges
@@ -51,6 +51,7 @@ DEVIATIONS = {
     "DevMagicAll": ("RoundTrip",),         # both objects ignore the magic: only pre-existing legacy records show it
     "DevFCharge": ("RoundTrip",),
     "DevTranspose": ("RoundTrip",),
+    "DevAlias": ("RoundTrip",),            # the library hands the same mutable object out again (read cache)
 }
 WORKERS = 4
 
@@ -203,11 +204,17 @@ def signature(t, l):
     """(kind of failure) of a rejected trace, for de-duplication and the message.  Diagnostics only."""
     e = t["ev"][l - 1] if l and l <= len(t["ev"]) else {"ev": "?"}
     if e["ev"] == "get" and e["out"] == "ok":
-        w = next(p["x"] for p in t["ev"] if p["ev"] == "put" and p["k"] == e["k"])
+        w = next((p["x"] for p in t["ev"] if p["ev"] in ("put", "lput") and p["k"] == e["k"]), None)
+        if w is None:
+            return ("get", "unknown-key", ()), f"read of a key that was never stored: {e['k']}"
+        again = any(p["ev"] == "scribble" and p["k"] == e["k"] and p["h"] == e["h"] for p in t["ev"][:l - 1])
         diffs = L.explain(w, e["x"])
         # the fields that differ, without positions: /atoms[0]/attrib[4] -> atoms.attrib
         import re
         fields = sorted({".".join(re.sub(r"\[\d+\]", "", d.split(":")[0]).strip("/").split("/")[:2]) for d in diffs})
+        if again:
+            return ("get", "differs-after-edit", ()), ("a second read shows the edits the caller made to the object "
+                                                         f"returned by the first read: {'; '.join(diffs[:3])}")
         return ("get", "differs", tuple(fields)[:6]), f"read-back differs: {'; '.join(diffs[:4])}"
     if e["ev"] == "get":
         return ("get", e["out"], (e.get("err", "")[:40],)), f"stored object cannot be read back: {e['out']}: {e.get('err', '')}"
@@ -226,7 +233,10 @@ def judge(rep, traces, meta, verdicts, tier, seed):
         e = t["ev"][l - 1] if l and l <= len(t["ev"]) else None
         if e and e["ev"] == "put" and e["out"] == "ok":
             raise tlc.MachineryError(f"{tid}: generated input outside the schema's domain or duplicate key at event {l}")
-        sig, what = signature(t, l)
+        try:
+            sig, what = signature(t, l)
+        except Exception as ex:          # diagnostics must never turn TLC's rejection into a machinery error
+            sig, what = ((e or {}).get("ev", "?"), "undiagnosed", ()), f"rejected at event {l} (diagnostics failed: {ex!r})"
         k = known_for({"kind": meta[tid]["kind"], "ver": meta[tid]["ver"], "ev": sig[0], "out": sig[1], "fields": list(sig[2])})
         if k:
             rep.known(k[0], k[1]["what"])
@@ -252,7 +262,7 @@ def background_models(ev, pool_exec):
 
     def one(dev):
         cfg = mc_cfg("PoolDev", "K1", dev)
-        if dev == "DevMagicAll":           # without the structural invariants: the read-back clause itself must catch it
+        if dev in ("DevMagicAll", "DevAlias"):   # without the structural invariants: the read-back clause itself must catch it
             cfg["invariants"] = ("KeysAreWritten",)
         r = expect_violation("MCLibCodec", cfg, DEVIATIONS[dev], tag="c01dev", workers=1)
         if r.violated not in DEVIATIONS[dev]:
@@ -363,8 +373,10 @@ def do_replay(path):
     (tid, v), = verdicts.items()
     out = {"verdict": v}
     if v[0] != "ACCEPT":
-        sig, what = signature(traces[0], v[1])
-        out["what"] = what
+        try:
+            out["what"] = signature(traces[0], v[1])[1]
+        except Exception as ex:
+            out["what"] = f"rejected at event {v[1]} (diagnostics failed: {ex!r})"
     print(json.dumps(out, indent=1))
     if v[0] != "ACCEPT":
         print(f"VIOLATION property={PROP} replay={path}")
